@@ -212,7 +212,7 @@ Theorem chk_C01_sound n exp : chk_C01 n exp = [] -> C01_on n exp.
 Proof.
   unfold chk_C01. intros H.
   apply app_nil in H. destruct H as (Hw & H). apply app_nil in H. destruct H as (Ho & H).
-  apply app_nil in H. destruct H as (He & Hr).
+  apply app_nil in H. destruct H as (He & Hr). apply app_nil in Hr. destruct Hr as (Hr & _).
   apply guard_nil in Hw. apply guard_nil in Ho. rewrite forallb_forall in Hw.
   assert (Hwf : Forall wf (sam_as_rules n)).
   { apply Forall_forall. intros x Hx. apply in_map_iff in Hx. destruct Hx as (r & <- & Hr').
